@@ -106,6 +106,11 @@ def run(ctx, model=None):
              "m": rng.choice([1, 2, 6, 11]), "rb": rng.choice(ks), "lb": rng.choice(ks), "tb": rng.choice(ks),
              "lt": rng.choice(ks), "fd": rng.random() < 0.5}
         check_main(ctx, p, model, seen)
+    for big in (2 ** 53 + 1, 12345678901234567891, 2 ** 64 + 3):
+        for fd in (False, True):
+            p = dict(base, seed=big, fd=fd)
+            check_main(ctx, p, model, seen)
+            check_main(ctx, dict(p, seed=big - 1), model, seen)
     # 3. manual entry point
     sg = repo("stochastic_game_from_roborta_board")
     for _ in range(5 if ctx.quick() else 60):
